@@ -223,3 +223,9 @@ def refusal_tables(v):
         ('quote-plus-fee-overflow', 'I', lambda e: ab(e, 'uint_Add')),
     ]
     return T, TA
+
+import probes as _pb
+PROBES = [
+    _pb.drop_facts('execute', 'CreateBid', 'FUNDS == coins'),
+    _pb.drop_facts('execute', 'CreateAsk', 'contains(CFG.supported_quote_denoms'),
+]
